@@ -1231,25 +1231,34 @@ Proof. repeat split. Qed.
 (** receivedSegData for one complete segment: under [chan_pre] no panic and the invariant is kept *)
 Lemma chan_received_safe c u :
   chan_inv c -> chan_pre c u = true ->
-  exists o, chan_received c (up_name u) (up_item u) = Ok o /\ chan_inv (o_chan o).
+  exists o, chan_received c (up_name u) (up_item u) = Ok o /\ chan_inv (o_chan o)
+    /\ match o_pub o with
+       | Some pub => g_latest (ch_gen c) < p_last pub /\ g_latest (ch_gen (o_chan o)) = p_last pub
+       | None => g_latest (ch_gen (o_chan o)) = g_latest (ch_gen c)
+       end.
 Proof.
   destruct u as [name it]. cbn [up_name up_item]. intros (Ig & Ish) P.
   unfold chan_pre in P. cbn [up_name up_item] in P. unfold chan_received.
   destruct (find_track name (ch_tracks c)) as [tr|] eqn:Eft.
-  2:{ eexists; split; [reflexivity|]. split; assumption. }
+  2:{ eexists; split; [reflexivity|]. split; [split; assumption|reflexivity]. }
   apply andb_true_iff in P as [P Pst]. apply andb_true_iff in P as [Pit Padd].
   pose proof (item_okb_ok _ Pit) as Hit.
   destruct (gen_add_inv _ name it Ig Hit Padd) as (g1 & n & ok & Ha & I1 & L1 & W1 & N1 & S1 & Sh1 & Lk1).
   unfold chan_mid in Pst. rewrite Ha in *. cbn [bind] in *.
   assert (Hmid : exists g2 pub, (if n =? 0 then Ok (g1, None) else gen_generate g1 n (chan_asets c)) = Ok (g2, pub)
-                   /\ gen_inv g2 /\ g_bufs g2 = g_bufs g1 /\ g_shifted g2 = g_shifted g1).
+                   /\ gen_inv g2 /\ g_bufs g2 = g_bufs g1 /\ g_shifted g2 = g_shifted g1
+                   /\ match pub with
+                      | Some p => g_latest (ch_gen c) < p_last p /\ g_latest g2 = p_last p
+                      | None => g_latest g2 = g_latest (ch_gen c)
+                      end).
   { destruct (n =? 0).
     - do 2 eexists; split; [reflexivity|]. auto.
-    - destruct (gen_generate_inv g1 n (chan_asets c) I1) as (g2 & p & Hg & I2 & B2 & _ & _ & _ & _ & Sh2 & _).
-      do 2 eexists; split; [exact Hg|]. auto. }
-  destruct Hmid as (g2 & pub & Hm & I2 & B2 & Sh2). rewrite Hm in *. cbn [bind] in *.
+    - destruct (gen_generate_inv g1 n (chan_asets c) I1) as (g2 & p & Hg & I2 & B2 & _ & _ & _ & _ & Sh2 & Hp).
+      do 2 eexists; split; [exact Hg|]. split; [exact I2|]. split; [exact B2|]. split; [exact Sh2|].
+      destruct p as [p|]; [lia|]. subst g2. exact L1. }
+  destruct Hmid as (g2 & pub & Hm & I2 & B2 & Sh2 & HL). rewrite Hm in *. cbn [bind] in *.
   destruct ((ch_mdur c =? 0) && (name =? ch_master c)) eqn:Emeas.
-  2:{ eexists; split; [reflexivity|]. cbn [o_chan]. split; [exact I2|].
+  2:{ eexists; split; [reflexivity|]. cbn [o_chan o_pub]. split; [|exact HL]. split; [exact I2|].
       change (ch_gen (with_gen c g2)) with g2. change (ch_mdur (with_gen c g2)) with (ch_mdur c).
       rewrite Sh2, Sh1. exact Ish. }
   (* the master track is being measured *)
@@ -1264,14 +1273,15 @@ Proof.
   destruct (lookup_Forall _ _ _ _ Fb2 Elk) as (k & Ib & Sb). cbn [snd] in Ib, Sb.
   pose proof Ib as (Hbw & Hbn & Hbl & Hbc & _).
   destruct (b_n b <? 2) eqn:E2.
-  { eexists; split; [reflexivity|]. cbn [o_chan]. split; [exact I2|].
+  { eexists; split; [reflexivity|]. cbn [o_chan o_pub]. split; [|exact HL]. split; [exact I2|].
     change (ch_gen (with_gen c g2)) with g2. rewrite Sh2, Sh1, Hns. discriminate. }
   destruct (sl_get_arr "channel.receivedSegData:index" (b_sl b) 0 ltac:(lia) ltac:(lia)) as (i0 & N0 & G0).
   destruct (sl_get_arr "channel.receivedSegData:index" (b_sl b) 1 ltac:(lia) ltac:(lia)) as (i1 & N1' & G1).
   rewrite G0, G1. cbn [bind]. rewrite N0, N1' in Pst.
   destruct (negb (i_seq i1 =? u32 (i_seq i0 + 1)) || negb (i_dur i1 =? i_dur i0)) eqn:Econs.
-  { destruct (gen_drop_inv g2 (i_seq i0) I2) as (g3 & Hd & I3 & _ & _ & _ & _ & Sh3). rewrite Hd. cbn [bind].
-    eexists; split; [reflexivity|]. cbn [o_chan]. split; [exact I3|].
+  { destruct (gen_drop_inv g2 (i_seq i0) I2) as (g3 & Hd & I3 & L3 & _ & _ & _ & Sh3). rewrite Hd. cbn [bind].
+    eexists; split; [reflexivity|]. cbn [o_chan o_pub]. change (ch_gen (with_gen (with_gen c g2) g3)) with g3.
+    split; [|rewrite L3; exact HL]. split; [exact I3|].
     change (ch_gen (with_gen (with_gen c g2) g3)) with g3. rewrite Sh3, Sh2, Sh1, Hns. discriminate. }
   (* the channel starts *)
   rewrite Eft in *.
@@ -1284,7 +1294,147 @@ Proof.
                                        then if Z.quot (i_dts i0) (i_dur i1) =? i_seq i0 then 0 else Z.quot (i_dts i0) (i_dur i1) - i_seq i0
                                        else (if Z.quot (i_dts i0) (i_dur i1) =? i_seq i0 then 0 else Z.quot (i_dts i0) (i_dur i1) - i_seq i0) + 1) =? 0)
                                 || negb ((if Z.rem (i_dts i0) (i_dur i1) =? 0 then 0 else i_dur i1 - Z.rem (i_dts i0) (i_dur i1)) =? 0))
-                           I2 Pres) as (g3 & Hs & I3 & _ & _ & _ & _).
-  rewrite Hs. cbn [bind]. eexists; split; [reflexivity|]. cbn [o_chan]. split; [exact I3|].
+                           I2 Pres) as (g3 & Hs & I3 & L3 & _ & _ & _).
+  rewrite Hs. cbn [bind]. eexists; split; [reflexivity|]. cbn [o_chan o_pub ch_gen].
+  split; [|rewrite L3; exact HL]. split; [exact I3|].
   cbn [ch_mdur]. intros _. exact Hdur.
+Qed.
+
+(** * All upload sequences *)
+Lemma chan_new_inv asets tsbd : chan_inv (chan_new asets tsbd).
+Proof.
+  unfold chan_inv, chan_new, gen_inv, gen_new. cbn [ch_gen ch_mdur g_cnt g_w g_bufs g_latest g_shifted].
+  split; [|discriminate].
+  split; [apply sc_new_inv; unfold two32; lia|]. split; [reflexivity|]. split; [unfold two32; lia|].
+  split; [constructor|lia].
+Qed.
+
+Lemma chan_register_inv c t : chan_inv c -> chan_inv (chan_register c t).
+Proof. intros I. exact I. Qed.
+
+Lemma chan_run_cons c u ups :
+  chan_run c (u :: ups) = match chan_received c (up_name u) (up_item u) with
+                          | Ok o => chan_run (o_chan o) ups
+                          | Err e => Err e
+                          | Panic s => Panic s
+                          end.
+Proof.
+  unfold chan_run. cbn [fold_left chan_step bind].
+  destruct (chan_received c (up_name u) (up_item u)) as [o|e|s]; cbn [bind]; [reflexivity| |].
+  - induction ups as [|u' ups IH]; [reflexivity|]. cbn [fold_left chan_step bind]. exact IH.
+  - induction ups as [|u' ups IH]; [reflexivity|]. cbn [fold_left chan_step bind]. exact IH.
+Qed.
+
+(** the invariant and the absence of panics, over every sequence of uploads *)
+Lemma chan_run_safe : forall ups c,
+  chan_inv c -> run_pre c ups -> exists c', chan_run c ups = Ok c' /\ chan_inv c'.
+Proof.
+  induction ups as [|u ups IH]; intros c I P.
+  - exists c. split; [reflexivity|exact I].
+  - destruct P as [Pu Pr]. destruct (chan_received_safe c u I Pu) as (o & Ho & Io & _).
+    rewrite chan_run_cons, Ho. apply IH; [exact Io|]. apply Pr. exact Ho.
+Qed.
+
+Definition pub_lasts (pubs : list (option published)) : list Z :=
+  flat_map (fun p => match p with Some x => [p_last x] | None => [] end) pubs.
+
+(** latestSeqNr never decreases and every published newest number is strictly above all earlier ones *)
+Lemma chan_trace_monotone : forall ups c,
+  chan_inv c -> run_pre c ups ->
+  exists pubs c', chan_trace c ups = Ok (pubs, c') /\ chan_inv c'
+    /\ incr (g_latest (ch_gen c) :: pub_lasts pubs) = true
+    /\ g_latest (ch_gen c') = last (g_latest (ch_gen c) :: pub_lasts pubs) 0.
+Proof.
+  induction ups as [|u ups IH]; intros c I P.
+  - exists [], c. split; [reflexivity|split; [exact I|split; reflexivity]].
+  - destruct P as [Pu Pr]. destruct (chan_received_safe c u I Pu) as (o & Ho & Io & HL).
+    destruct (IH (o_chan o) Io (Pr o Ho)) as (pubs & c' & Ht & Ic' & Hincr & Hlast).
+    cbn [chan_trace]. rewrite Ho. cbn [bind]. rewrite Ht. cbn [bind fst snd].
+    exists (o_pub o :: pubs), c'. split; [reflexivity|]. split; [exact Ic'|].
+    unfold pub_lasts in *. cbn [flat_map]. destruct (o_pub o) as [p|].
+    + destruct HL as [H1 H2]. rewrite H2 in *. cbn [app]. split.
+      * change (incr (g_latest (ch_gen c) :: p_last p :: flat_map (fun p0 => match p0 with Some x => [p_last x] | None => [] end) pubs) = true).
+        cbn [incr]. apply andb_true_iff. split; [lia|exact Hincr].
+      * exact Hlast.
+    + cbn [app]. rewrite HL in *. split; [exact Hincr|exact Hlast].
+Qed.
+
+Lemma run_preb_ok : forall ups c, run_preb c ups = true -> run_pre c ups.
+Proof.
+  induction ups as [|u ups IH]; intros c H; [exact Logic.I|].
+  cbn [run_preb] in H. apply andb_true_iff in H as [H1 H2]. split; [exact H1|].
+  intros o Ho. rewrite Ho in H2. apply IH. exact H2.
+Qed.
+
+(** * Channel-level witnesses *)
+Definition chan_with (asets : list (list Z)) (tsbd : Z) (tracks : list track) : chan :=
+  fold_left chan_register tracks (chan_new asets tsbd).
+
+Lemma chan_with_inv asets tsbd tracks : chan_inv (chan_with asets tsbd tracks).
+Proof.
+  unfold chan_with. generalize (chan_new_inv asets tsbd). generalize (chan_new asets tsbd).
+  induction tracks as [|t r IH]; intros c I; [exact I|]. cbn [fold_left]. apply IH. apply chan_register_inv. exact I.
+Qed.
+
+(** C17_safe as stated (no arrival order stops the receiver) is false: one video track, window 3
+    (timeShiftBufferDepth 4 s, 2 s segments), numbers 1,2,3 and then 100 *)
+Lemma safe_refuted :
+  exists c ups, chan_inv c /\ chan_run c ups = Panic "seqCounters.add:slice".
+Proof.
+  exists (chan_with [[0]] 4 [mkTrack 0 true true 90000]), [up 0 1; up 0 2; up 0 3; up 0 100].
+  split; [apply chan_with_inv|vm_compute; reflexivity].
+Qed.
+
+(** a track that is registered but delivers its first segment after the start is not required:
+    every precondition holds (none of the other defects is involved), the MPD lists 1..2 and the
+    third track has no buffer at all *)
+Lemma late_track_refuted :
+  exists c ups pubs c',
+    chan_inv c /\ run_pre c ups /\ chan_trace c ups = Ok (pubs, c') /\
+    last pubs None = Some (mkPub 1 2 [[(180000, 180000, 1)]; [(180000, 180000, 1)]]) /\
+    find_track 2 (ch_tracks c') <> None /\ lookup 2 (g_bufs (ch_gen c')) = None.
+Proof.
+  exists (chan_with [[0]; [1; 2]] 30 [mkTrack 0 true true 90000; mkTrack 1 false true 90000; mkTrack 2 false true 90000]),
+         [up 0 1; up 1 1; up 0 2; up 1 2].
+  do 2 eexists. split; [apply chan_with_inv|]. split; [apply run_preb_ok; vm_compute; reflexivity|].
+  split; [vm_compute; reflexivity|]. split; [vm_compute; reflexivity|]. split; [vm_compute; discriminate|vm_compute; reflexivity].
+Qed.
+
+(** two video tracks, the master delivers two segments before the other one delivers any *)
+Lemma start_nil_refuted :
+  exists c ups, chan_inv c /\ chan_run c ups = Panic "segDataBuffer.nrItems:nil".
+Proof.
+  exists (chan_with [[0; 1]] 30 [mkTrack 0 true true 90000; mkTrack 1 true true 90000]), [up 0 1; up 0 2].
+  split; [apply chan_with_inv|vm_compute; reflexivity].
+Qed.
+
+(** a text track without btrt whose only segment was dropped because the master's first two
+    segments were not consecutive *)
+Lemma start_div_refuted :
+  exists c ups, chan_inv c /\ chan_run c ups = Panic "channel.deriveAndSetBitrates:div".
+Proof.
+  exists (chan_with [[0]; [2]] 30 [mkTrack 0 true true 90000; mkTrack 2 false false 1000]),
+         [mkUp 2 (mkItem 1 2000 2000 false); up 0 1; up 0 3; up 0 4].
+  split; [apply chan_with_inv|vm_compute; reflexivity].
+Qed.
+
+(** non-vacuity of the safety theorem: a run of three tracks with a gap and a duplicate satisfies every precondition *)
+Lemma run_pre_example :
+  let c := chan_with [[0]; [1]] 30 [mkTrack 0 true true 90000; mkTrack 1 false true 90000] in
+  let ups := [up 0 1; up 1 1; up 1 2; up 0 2; up 0 3; up 1 3; up 1 3; up 0 5; up 1 5; up 0 6; up 1 6] in
+  run_pre c ups /\
+  exists pubs c', chan_trace c ups = Ok (pubs, c') /\ pub_lasts pubs = [2; 3; 5; 6].
+Proof.
+  split; [apply run_preb_ok; vm_compute; reflexivity|]. do 2 eexists. split; vm_compute; reflexivity.
+Qed.
+
+Lemma chan_window c :
+  chan_inv c ->
+  let g := ch_gen c in
+  0 <= sc_n (g_cnt g) <= sc_w (g_cnt g) /\ sc_w (g_cnt g) = g_w g /\ slen (sc_sl (g_cnt g)) = g_w g /\
+  Forall (fun kb => 0 <= b_n (snd kb) <= b_size (snd kb) /\ b_size (snd kb) = g_w g /\ slen (b_sl (snd kb)) = g_w g) (g_bufs g).
+Proof.
+  intros ((Ic & Ew & Hw & Fb & Hl) & _). cbv zeta. destruct Ic as (A & B & C & D & E).
+  split; [exact B|]. split; [exact Ew|]. split; [lia|].
+  eapply Forall_impl; [|exact Fb]. intros [k b] ((A' & B' & C' & D' & E') & S). cbn [snd] in *. repeat split; lia.
 Qed.
